@@ -6,7 +6,7 @@ import session
 from props import session_common as sc
 from props.c10 import pending
 
-COQ_TARGETS = ['props/C02.vo']
+COQ_TARGETS = ['props/C02.vo', 'model/YSessionSx.vo']
 TRUSTED = sc.TRUSTED
 ASSUMPTIONS = sc.ASSUMPTIONS + ['the cooperative peer answers at once (zero connect time in virtual time); states with two live '
                                 'connections (known finding C12-retry-while-connecting) are excluded from the recovery bound']
